@@ -429,6 +429,11 @@ func walkExpr(e Expr, f func(Expr)) {
 		walkExpr(x.Hi, f)
 	case EQuant:
 		walkExpr(x.Body, f)
+		for _, p := range x.Patterns {
+			for _, e := range p {
+				walkExpr(e, f)
+			}
+		}
 	case EOld:
 		walkExpr(x.X, f)
 	case ELet:
